@@ -72,6 +72,30 @@ def splice(project, func):
     return sp(func, keep=KEEP_GENERATORS) if sp is not None else func
 
 
+def flatten(project, func, keep=()):
+    """*func* with its procedure-like project helpers spliced in (model.inline_helpers) and, in the result, loops over generator
+    helpers replaced by the helper's own loop -- also for a method called on some other object when its name is unique in the
+    project (`desc.sub_tiling.generate_populated_slices(..)`).  For rules that compare the statement structure of two siblings
+    (serial loop vs worker loop) after a maintainer moved their common body into shared helpers."""
+    from sa.model import inline_helpers, inline_generators
+
+    def resolve(owner, call):
+        g = resolve_callee(project, owner, call)
+        if g is None and isinstance(call.func, ast.Attribute):
+            cands = [f_ for f_ in project.py_funcs() if f_.node.name == call.func.attr and f_.cls is not None and f_.parent is None]
+            if len(cands) == 1:
+                g = cands[0]
+        if g is None or g.node.name in keep or g.qual == func.qual:
+            return None
+        return g
+    try:
+        out = inline_helpers(project, func, resolve)
+        out = inline_generators(project, out, lambda owner, call: (lambda g: None if (g is None or g.node.name in KEEP_GENERATORS) else g)(resolve(owner, call)), depth=2)
+        return out
+    except Exception:
+        return func
+
+
 def discover_stages(project):
     """Every function containing ``<mp>.Process(target=F, args=(...))``."""
     stages = []
